@@ -41,6 +41,7 @@ type Rec struct {
 	n    int
 	// undo journal (Begin / Rollback): lets a caller try alternative model
 	// outcomes on the same bus
+	dirty   []uint16 // cells written since Reset (each once)
 	journal bool
 	undo    []undoEntry
 	mark    struct{ log, nIn, n int }
@@ -92,6 +93,7 @@ func (r *Rec) Reset(seed, ioseed uint64, fill, iofill int) {
 		r.cur = 1
 	}
 	r.Log = r.Log[:0]
+	r.dirty = r.dirty[:0]
 	r.nIn = 0
 	r.n = 0
 	r.Hook = nil
@@ -122,6 +124,9 @@ func (r *Rec) Peek(a uint16) uint8 {
 func (r *Rec) Poke(a uint16, v uint8) {
 	if r.journal {
 		r.undo = append(r.undo, undoEntry{a, r.val[a], r.gen[a]})
+	}
+	if r.gen[a] != r.cur {
+		r.dirty = append(r.dirty, a)
 	}
 	r.val[a] = v
 	r.gen[a] = r.cur
@@ -198,9 +203,9 @@ func Equal(a, b *Rec) (bool, uint16) {
 // with the same parameters).
 func (r *Rec) CopyTo(dst *Rec) {
 	dst.Reset(r.seed, r.ioseed, r.fill, r.iofill)
-	for a := 0; a < 65536; a++ {
-		if r.gen[a] == r.cur {
-			dst.Poke(uint16(a), r.val[a])
+	for _, a := range r.dirty {
+		if r.gen[a] == r.cur { // a rolled-back cell may be listed although it is clean again
+			dst.Poke(a, r.val[a])
 		}
 	}
 	dst.nIn = r.nIn
